@@ -680,6 +680,20 @@ def scripts_after_head(rnd, quick):
     return out
 
 
+def scripts_badlen(rnd, quick):
+    """A non-numeric / empty / conflicting Content-Length with only the header block in the
+    first read; the "body" - bytes that look like a request - follows in a later read."""
+    out = []
+    for head, body in G.badlen_splits(rnd):
+        out.append(('badlen:split', [('conn', 1), ('in', 1, head), ('in', 1, body), ('disc', 1)]))
+        out.append(('badlen:linger', [('connl', 1), ('in', 1, head), ('in', 1, body), ('tdisc', 1), ('disc', 1)]))
+        out.append(('badlen:keptalive', [('conn', 1), ('in', 1, G.realise('GoodKA', rnd)), ('in', 1, head), ('in', 1, body),
+                                         ('disc', 1)]))
+        out.append(('badlen:headonly', [('conn', 1), ('in', 1, head), ('disc', 1)]))
+        out.append(('badlen:race', [('conn', 1), ('inx', 1, head)]))
+    return out
+
+
 def scripts_random(rnd, n, fuzz):
     """Seeded random scripts over <= 3 connections; after an unanswered message
     anything may follow (continuation bytes of an arbitrary class)."""
@@ -840,7 +854,7 @@ def mutate_trace(rnd, lines, how):
             wf, ph = _wf_before(out, i, ln['c']), _phase_before(out, i, ln['c'])
             if how == 'gooderror' and wf == 'good' and ph == 'disp' and ln['pr'] == 'ok' and ln['st'] < 400:
                 cands.append(i)
-            if how == 'unsup200' and wf == 'unsup' and ln['pr'] == 'ok' and ln['st'] >= 400:
+            if how == 'unsup200' and wf in ('unsup', 'badlen') and ln['pr'] == 'ok' and ln['st'] >= 400:
                 cands.append(i)
         if not cands:
             return None
@@ -1160,7 +1174,7 @@ def run(tier, replay=None):
             origin.append('tlc-history')
     n_hist_scripts = len(scripts)
     for org, sc in scripts_every_mutant(rnd, quick) + scripts_truncations(rnd, quick) + scripts_late(rnd, quick) + \
-            scripts_tls_cuts(rnd, quick) + scripts_after_head(rnd, quick) + \
+            scripts_tls_cuts(rnd, quick) + scripts_after_head(rnd, quick) + scripts_badlen(rnd, quick) + \
             scripts_random(rnd, 250 if quick else 4000, fuzz=False) + scripts_random(rnd, 250 if quick else 4000, fuzz=True):
         scripts.append(sc)
         origin.append(org)
